@@ -36,6 +36,7 @@ type WSpec struct {
 	Base  int `json:"base"`
 	Delta int `json:"delta"`
 	Len   int `json:"len"`
+	Obj   int `json:"obj"` // which FileCache value issues the call: 0 = the shared long-lived one, i+1 = its own (child process)
 }
 
 type Ev struct {
@@ -238,8 +239,10 @@ type wplan struct {
 	child  bool
 	base   *bund // explicit content; nil: a bundle of its own (small, or large when large is set)
 	delta  *bund // delta CRL stored with it, nil = none
-	fsize  int64 // child only, when limited: RLIMIT_FSIZE of the writing process
+	fsize  int64 // when limited: RLIMIT_FSIZE of the writing process (a child's own limit; for a goroutine
+	// writer the harness process's soft limit, lowered around the write step only)
 	limited bool
+	fault   int // how the `cfail` / `rnfail` step of this call is provoked from outside (see faults.go)
 }
 
 type world struct {
@@ -421,6 +424,9 @@ func (w *world) specs() []WSpec {
 	out := make([]WSpec, len(w.plans))
 	for i, p := range w.plans {
 		out[i] = WSpec{Key: p.key, Base: w.bundles[i].id, Len: w.bundles[i].absLen}
+		if p.child {
+			out[i].Obj = i + 1
+		}
 		if w.deltas[i] != nil {
 			out[i].Delta = w.deltas[i].id
 		}
@@ -555,6 +561,7 @@ type gwriter struct {
 	started bool
 	quitted bool
 	setErr  error
+	temp    string // name of the temp file of the call, as the hooks report it
 }
 
 var stepped sync.Map // goroutine id -> *gwriter
@@ -572,12 +579,13 @@ func goid() uint64 {
 }
 
 func installHook() {
-	file.VerifHook = func(step, _ string) {
+	file.VerifHook = func(step, name string) {
 		v, ok := stepped.Load(goid())
 		if !ok {
 			return // not a stepped writer (free-running Set, reference entries ...)
 		}
 		g := v.(*gwriter)
+		g.temp = name
 		select {
 		case g.arrive <- step:
 		case <-g.quit:
@@ -815,7 +823,7 @@ func (c *cwriter) finish() error {
 
 func (c *cwriter) abandon() { c.kill() }
 
-var hookAfter = map[string]string{"create": "created", "write": "written", "close": "closed", "rename": "returned", "wfail": "returned"}
+var hookAfter = map[string]string{"create": "created", "write": "written", "close": "closed", "rename": "returned", "wfail": "returned", "rnfail": "returned"}
 
 // runSchedule executes a trace on a fresh world and returns what was observed.
 // deviations counts hook reports that did not match the step the trace asked for (a writer that
@@ -862,9 +870,46 @@ func runSchedule(w *world, events []Ev) (obs Obs, deviations int, err error) {
 			obs.Probes = append(obs.Probes, d)
 		case "crash":
 			ws[e.A].kill()
+		case "cfail":
+			// the creation of the temp file fails: the cache directory is away while the call runs
+			g, isG := ws[e.A].(*gwriter)
+			if !isG {
+				return obs, deviations, fmt.Errorf("cfail: only for calls through the shared FileCache value")
+			}
+			undo, ferr := w.rootAway(w.plans[e.A].fault)
+			if ferr != nil {
+				return obs, deviations, ferr
+			}
+			g.start()
+			_, ok, aerr := g.await()
+			if uerr := undo(); uerr != nil && aerr == nil {
+				aerr = uerr
+			}
+			if aerr != nil {
+				return obs, deviations, aerr
+			}
+			if ok { // it reached a hook although there was no directory to create a temp file in
+				deviations++
+				if ferr := g.finish(); ferr != nil {
+					return obs, deviations, ferr
+				}
+			}
 		default:
 			x := ws[e.A]
 			var serr error
+			after := func() error { return nil }
+			if e.Kind == "rnfail" {
+				var ferr error
+				if after, ferr = w.blockRename(e.A, x); ferr != nil {
+					return obs, deviations, ferr
+				}
+			}
+			if _, isG := x.(*gwriter); isG && e.Kind == "wfail" && w.plans[e.A].limited {
+				var ferr error
+				if after, ferr = lowerOwnFileSizeLimit(w.plans[e.A].fsize); ferr != nil {
+					return obs, deviations, ferr
+				}
+			}
 			if e.Kind == "create" {
 				serr = x.start()
 			} else {
@@ -874,11 +919,13 @@ func runSchedule(w *world, events []Ev) (obs Obs, deviations int, err error) {
 				if _, isC := x.(*cwriter); isC && e.Kind != "create" && serr != errAbandoned {
 					serr = nil // broken pipe: the child ended early; await reports it as a deviation
 				} else {
+					after()
 					return obs, deviations, errAbandoned // could not start a process / timed out
 				}
 			}
 			step, ok, aerr := x.await()
 			if aerr != nil {
+				after()
 				return obs, deviations, aerr
 			}
 			if !ok || step != hookAfter[e.Kind] {
@@ -892,9 +939,13 @@ func runSchedule(w *world, events []Ev) (obs Obs, deviations int, err error) {
 					}
 				}
 			}
-			if e.Kind == "wfail" {
+			if e.Kind == "wfail" || e.Kind == "rnfail" {
 				// the failed writer has nothing left to do but to return its error
-				if ferr := x.finish(); ferr != nil {
+				ferr := x.finish()
+				if aerr := after(); ferr == nil {
+					ferr = aerr
+				}
+				if ferr != nil {
 					return obs, deviations, ferr
 				}
 			}
